@@ -27,8 +27,9 @@ Proof.
     | |- w_ht _ _ _ = _ => apply w_ht_eq, H
     | |- w_cht _ _ _ _ = _ => apply w_cht_eq, H
     | |- w_cbt _ _ _ _ = _ => apply w_cbt_eq, H
-    | |- w_sc _ _ _ = _ => apply w_sc_eq
-    | |- w_rc _ _ _ = _ => apply w_rc_eq
+    | |- w_sc _ _ _ = _ => apply w_sc_eq, H
+    | |- w_rc _ _ _ = _ => apply w_rc_eq, H
+    | |- w_xtwinops _ _ _ _ = _ => apply w_xtwinops_eq, H
     | |- w_ris _ _ _ = _ => apply w_ris_eq
     | |- w_decstr _ _ _ = _ => apply w_decstr_eq
     | |- w_decset _ _ _ _ = _ => apply w_decset_eq, HT
